@@ -1,4 +1,5 @@
 import DudModel.Blake3
+import DudModel.Blake3Total
 import DudModel.World
 import DudModel.Render
 import DudModel.Generated.Facts
@@ -58,7 +59,9 @@ def parseContent (s : String) : ByteArray :=
   | ["h", hx] => ba (unhex hx)
   | _ => ByteArray.empty
 
-def H (b : ByteArray) : Digest := Blake3.toHex (Blake3.hash b)
+/-- the checksum of a byte string: the TOTAL BLAKE3 (`DudModel/Blake3Total.lean`), proved equal to the list specification
+`hashSpecReal` for every input (`Props/C14total.lean: hashT_eq_spec`, `hashT_hex`) -/
+def H (b : ByteArray) : Digest := Blake3.toHex (Blake3T.hash b)
 
 def theCtx : Ctx ByteArray :=
   { H := H
@@ -539,7 +542,7 @@ partial def ownerLoop (inp out : IO.FS.Stream) : IO Unit := do
 /-! ## checksum reader (stream S7), path algebra (S6), stage definitions -/
 
 def blakeHasher : Hasher.HasherSpec Bytes :=
-  { reset := fun _ => [], write := fun s c => s ++ c, sum := fun s => (Blake3.hash (ba s)).toList }
+  { reset := fun _ => [], write := fun s c => s ++ c, sum := fun s => (Blake3T.hash (ba s)).toList }
 
 def hexBytes (b : Bytes) : String := (hexOf b)
 
